@@ -317,7 +317,7 @@ def run_case(case):
     twin = twins.inline_calls(prog)
     if any(s[0] == "for" for s in twin):
         twin = twins.unroll_loops(twin) if False else twin
-    res = sem.run_twin_case(case, prog, {}, twin, {}, label_a="calls", label_b="inlined",
+    res = sem.run_twin_case_relative(case, prog, {}, twin, {}, label_a="calls", label_b="inlined",
                             reference=not case.get("memory"))
     res.setdefault("monitors", {})
     res["monitors"]["inline_calls"] = len([r for r in monitors.INLINE_LOG if "func" in r])
